@@ -264,8 +264,19 @@ func TestC09_Gen(t *testing.T) {
 	}
 	rapid.Check(t, func(rt *rapid.T) {
 		c := &RawCase{}
-		mode := gen.Uniform(rt, 10, "mode")
+		mode := gen.Uniform(rt, 12, "mode")
 		switch {
+		case mode >= 10: // valid documents whose fragments spread one another, at a size where exponential work does not return
+			r := drawRecipe(rt)
+			if gen.Chance(rt, 50, "exclusiveParents") {
+				// the first fragment is reached under one response key from two different object types
+				r.Contexts = append([]ScaleContext{{OnType: 0, Keyed: true}, {OnType: 1, Keyed: true}}, r.Contexts...)
+			}
+			n := []int{48, 64, 80}[gen.Uniform(rt, 3, "scale")]
+			if r.Edges == "later" || r.Edges == "mod3" {
+				n = 24 + n/8 // the document itself is quadratic in n
+			}
+			c.Text = recipeDocV(r, n, kitchenScaleVocabulary)
 		case mode < 5: // grammatical sentences over the schema's vocabulary, maybe mutated
 			toks := syn.GenDocumentTokensWith(rt, []string{"exec", "exec", "mixed"}[gen.Uniform(rt, 3, "kind")], kitchenVocabulary)
 			if gen.Chance(rt, 30, "mutate") {
@@ -294,6 +305,10 @@ func TestC09_Gen(t *testing.T) {
 		markCurrent("C09", "gen", c) // an unrecoverable crash (stack overflow) kills the process: this file names the input
 		msg, class := c09Oracle(c)
 		c09Record(c, class)
+		if strings.Contains(msg, "did not return within") {
+			// the abandoned call keeps running (and may keep allocating): report and stop here
+			fatalViolation("C09", "gen", c, "%s\n  input: %q op=%q vars=%s", msg, c.Text, c.OpName, c.Vars)
+		}
 		if msg != "" {
 			violation(rt, "C09", "gen", c, "%s\n  input: %q op=%q vars=%s", msg, c.Text, c.OpName, c.Vars)
 		}
